@@ -157,7 +157,7 @@ Definition single_header (st : hstate) (id : N) (v : list N) : step_result :=
     else Rej 400 st
   else if (id =? ID_TRANSFER_ENCODING) then
     if negb (st_http11 st) then Rej 400 (set_ka st false)
-    else if negb (eq_icase v s_chunked) then Rej 501 st
+    else if negb (eq_icase v s_chunked) || (st_rlen st =? -1)%Z then Rej 501 st      (* also a repeated field: "chunked, chunked" *)
     else Go (set_rlen st (-1))
   else Go (mark st id v).
 
@@ -192,6 +192,13 @@ Fixpoint head_lines (ls : list (list N)) : option (list (list N)) :=
   | [] => None
   | l :: t => if is_blank_line l then Some []
               else match head_lines t with Some r => Some (l :: r) | None => None end
+  end.
+
+(* the blank line that ends the header section: CRLF (true) or a bare LF *)
+Fixpoint blank_is_crlf (ls : list (list N)) : bool :=
+  match ls with
+  | [] => true
+  | l :: t => if is_blank_line l then list_eqb l [13; 10] else blank_is_crlf t
   end.
 
 Definition starts_ws (l : list N) : bool := match l with c :: _ => is_blank c | [] => false end.
@@ -520,6 +527,7 @@ Definition h1_parse (flags : N) (block : list N) : h1_result :=
       match parse_reqline flags l1 whole with
       | RLRej s => H1Rej s
       | RLOk rl =>
+          if strict && negb (blank_is_crlf ls) then H1Rej 400 else
           let st0 := {| st_host := None; st_seen := []; st_vals := []; st_rlen := 0;
                         st_ka := rl_http11 rl; st_http11 := rl_http11 rl |} in
           let st1 := match rl_host rl with Some h => set_host st0 h | None => st0 end in
